@@ -8,13 +8,14 @@ import importlib
 import itertools
 
 from symx.core import AND, OR, NOT, IMPLIES, ITE, IFF, SNum, ssum
+from symx.stubs import namer
 
 PROPERTY = "C13"
 FILES = ["solvor/mst.py", "solvor/utils/data_structures.py", "solvor/utils/validate.py"]
 FUNCTIONS = ["solvor.mst.kruskal[python]", "solvor.mst.prim", "solvor.utils.data_structures.UnionFind (as used by kruskal)"]
 BOUNDS = {
     "quick": "every simple graph on 4 nodes (64 edge subsets of K4) and on 3 nodes, plus 10 named multigraphs on 3-5 nodes with duplicate "
-             "edges, self loops, isolated nodes and string labels (prim); allow_forest on/off (<=4 edges; off beyond), every prim start node for <=3 edges, 1-2 start nodes beyond; weights unbounded "
+             "edges, self loops, isolated nodes; prim labels rotate over ints / strings / unorderable hashable objects; allow_forest on/off (<=4 edges; off beyond), every prim start node for <=3 edges, 1-2 start nodes beyond; weights unbounded "
              "Reals of any sign (ties included)",
     "thorough": "quick + every multigraph on 5 nodes drawn from VERIF_SEED-sampled edge lists with <=7 edges (300 lists) + K5 minus 3 edges",
 }
@@ -96,7 +97,7 @@ def h_mst(s, algo, n, edges, allow_forest=False, start=None, labels=False):
     w = [s.real("w%d" % i) for i in range(len(edges))]
     forests, ncomp = spanning_forests(n, edges)
     connected = ncomp == 1
-    name = (lambda u: "n%d" % u) if labels else (lambda u: u)
+    name = namer(labels)
     if algo == "kruskal":
         inp = [(u, v, w[i]) for i, (u, v) in enumerate(edges)]
         snap = list(inp)
@@ -179,6 +180,7 @@ def items(tier, rng):
             m = rng.randint(4, 7)
             graphs.append((5, [rng.choice(K5E) for _ in range(m)]))
         graphs.append((5, [(0, 1), (0, 2), (0, 3), (0, 4), (1, 2), (1, 3), (2, 4)]))
+    nprim = 0
     for (n, edges) in graphs:
         big = len(edges) >= 6
         for af in ((False, True) if (len(edges) <= 4 or tier == "thorough") else (False,)):
@@ -192,8 +194,10 @@ def items(tier, rng):
         else:
             starts = [None] + list(range(n)) if len(edges) <= 3 else ([None, n - 1] if len(edges) == 4 else [rng.choice([None, 1, 2])])
         for st in starts:
+            # label scheme rotates over ints / strings / unorderable hashable objects ("any hashable node labels")
+            nprim += 1
             it = {"name": "prim_%d_%d" % (n, len(edges)), "harness": "h_mst",
-                  "params": {"algo": "prim", "n": n, "edges": edges, "start": st, "labels": st is None and len(edges) % 2 == 1}}
+                  "params": {"algo": "prim", "n": n, "edges": edges, "start": st, "labels": (False, "str", "opaque")[nprim % 3]}}
             if big:
                 it["split"] = 6
             out.append(it)
